@@ -111,6 +111,31 @@ pub fn k_history<T: Real>(case: &Case) -> Outcome {
                 ));
             }
             worst = worst.max(e / b);
+            // the last request of a history (and every request of a short one) also through the other three entry points,
+            // each with exactly its advertised scratch: a spliced inner transform with unusual scratch needs shows here
+            if vi == 0 && (i + 1 == reqs.len() || reqs.len() <= 3) {
+                for e2 in ENTRIES {
+                    if e2 == entry {
+                        continue;
+                    }
+                    let o2 = match transform(&**f, e2, &input) {
+                        Ok(o) => o,
+                        Err(p) => {
+                            return Outcome::bad(format!(
+                                "transform returned for request #{} (n={}, {:?}) panicked on a well-shaped call via {:?} (exactly the advertised scratch): {} @ {}; earlier requests {:?}",
+                                i, n, r.dir, e2, p.msg, p.loc, reqs[..i].iter().map(|q| (q.n, q.dir)).collect::<Vec<_>>()
+                            ))
+                        }
+                    };
+                    let e2err = refdft::rel_l2(&to_pairs(&o2), &reference);
+                    if !(e2err <= b) {
+                        return Outcome::bad(format!(
+                            "transform returned for request #{} (n={}, {:?}) is not the DFT via {:?}: relL2 {:.3e} > {:.3e}; earlier requests {:?}",
+                            i, n, r.dir, e2, e2err, b, reqs[..i].iter().map(|q| (q.n, q.dir)).collect::<Vec<_>>()
+                        ));
+                    }
+                }
+            }
             // two planners fed the same history: bit-identical outputs
             let out2 = match transform(&*got_twin[i], entry, &input) {
                 Ok(o) => o,
@@ -152,6 +177,71 @@ pub fn k_history<T: Real>(case: &Case) -> Outcome {
         .count("requests spliced onto an earlier cache entry", rewritten)
         .count("repeated requests served from cache", repeats)
         .label(format!("history length:{}", reqs.len()))
+}
+
+// ---------------------------------------------------------------------------------------------
+// kind "planlife" (C10): the caller DROPS every returned transform before the next request (a planner whose cache only
+// borrows what callers keep alive, or whose bookkeeping outlives an entry, shows here and nowhere else). Every returned
+// transform is checked for len/direction and against the analytic DFT column of a unit impulse (O(n), so lengths in the
+// millions are affordable), plus a dense vector when n <= 2^16.
+pub fn k_planlife<T: Real>(case: &Case) -> Outcome {
+    let reqs = match &case.source {
+        Source::History { reqs, .. } => reqs.clone(),
+        _ => return Outcome::skip("not a history case"),
+    };
+    let mut pl = match AnyPlanner::<T>::new(case.planner) {
+        Some(p) => p,
+        None => return Outcome::skip(format!("planner {:?} unavailable in this configuration", case.planner)),
+    };
+    let mut worst = 0.0f64;
+    for (i, r) in reqs.iter().enumerate() {
+        let earlier = || reqs[..i].iter().map(|q| (q.n, q.dir)).collect::<Vec<_>>();
+        let f = match catch(|| if i % 2 == 0 { pl.plan(r.n, r.dir) } else { pl.plan_named(r.n, r.dir) }) {
+            Ok(f) => f,
+            Err(p) => {
+                return Outcome::bad(format!(
+                    "request #{} (n={}, {:?}) panicked; every earlier transform had been dropped by the caller before the next request; earlier requests {:?}: {} @ {}",
+                    i, r.n, r.dir, earlier(), p.msg, p.loc
+                ))
+            }
+        };
+        if f.len() != r.n || Dir::from_fft(f.fft_direction()) != r.dir {
+            return Outcome::bad(format!("request #{} for (n={}, {:?}) returned a transform reporting (len {}, {:?}) after earlier (dropped) requests {:?}", i, r.n, r.dir, f.len(), f.fft_direction(), earlier()));
+        }
+        let n = r.n;
+        if n == 0 {
+            continue;
+        }
+        let b = bound(n, T::EPS);
+        let mut specs = vec![InputSpec::fam("impulse", 1 + (case.input.seed % 7))];
+        if n <= 1 << 16 {
+            specs.push(InputSpec::fam("uniform", 2 * n as u64));
+        }
+        for (vi, spec) in specs.iter().enumerate() {
+            let input = make_input::<T>(spec, n, 1);
+            let entry = ENTRIES[(i + vi + case.input.seed as usize) % 4];
+            let out = match transform(&*f, entry, &input) {
+                Ok(o) => o,
+                Err(p) => return Outcome::bad(format!("transform returned for request #{} (n={}, {:?}) panicked on a well-shaped call via {:?}: {} @ {}", i, n, r.dir, entry, p.msg, p.loc)),
+            };
+            let mut c2 = case.clone();
+            c2.n = n;
+            c2.dir = r.dir;
+            c2.chunks = 1;
+            c2.input = spec.clone();
+            let reference = reference_for::<T>(&c2, &input);
+            let e = refdft::rel_l2(&to_pairs(&out), &reference);
+            if !(e <= 4.0 * b) {
+                return Outcome::bad(format!("transform returned for request #{} (n={}, {:?}) is not the DFT: relL2 {:.3e} > 4*B = {:.3e} via {:?}; earlier (dropped) requests {:?}", i, n, r.dir, e, 4.0 * b, entry, earlier()));
+            }
+            worst = worst.max(e / b);
+        }
+        drop(f);
+    }
+    Outcome::held(reqs.len() >= 2)
+        .ratio(format!("planlife relL2/B {:?} {}", case.planner, T::NAME), worst)
+        .count("requests judged (caller drops each transform at once)", reqs.len() as u64)
+        .label(format!("planlife length:{}", reqs.len()))
 }
 
 /// Put the calling thread's SSE control/status register back to the process start-up default (round to nearest,
